@@ -2,6 +2,7 @@
 from __future__ import annotations
 
 import ast
+import os
 from typing import Callable, Dict, List, Optional, Sequence, Tuple
 
 from ..boolean import Evaluator, Kind, OutOfGrid, World
@@ -482,9 +483,11 @@ def closer_table(m: FnModel, rep, rule: str) -> None:
         text += ' ' + src(_Rename({hp[0]: 'S'}).visit(copy.deepcopy(hx))) if hp else src(hx)
     # the cells of the state's grid are tested for the requested type, however the scan over the
     # grid is spelled (subscripts of the grid, rows of `grid.objects`, a fused pass)
-    tests = [n for hn_, h_ in list(m.walk.local_funcs.items()) + [('', prev_e)]
-             for n in ast.walk(h_) if isinstance(n, ast.Call) and src(n.func) == 'isinstance'
-             and len(n.args) == 2 and src(n.args[1]) == 'object_type']
+    import re as _re
+    tests = _re.findall(r'isinstance\((?:[^()]|\([^()]*\))*, (?:\w*_)?object_type\)',
+                        unprefix(text))
+    # the compared terms may name locals of an inlined helper: read them through
+    text += ' ' + src(m.walk.expand(prev_e, depth=12))
     rep.check('S.agent.position' in text and 'S.grid' in text and bool(tests)
               and 'object_type' in text, rule, REWARD, f.name, f.node.lineno, prev_t[:120],
               'the distance does not measure from the agent position to the object of the '
